@@ -80,8 +80,12 @@ def run(pid, tier):
         else:
             R.machinery(f"TLC Guard: {b.error}")
         return R.finish()
-    jobs = [dict(rec=rec, seed=sd * 17 + s, idx=i, keep=(i % 53 == 0 and s == 0)) for i, rec in enumerate(exports) for s in range(2)]
-    results = driverprops.pool_map(_work, jobs)
+    # all the cases of one file name run one after the other in ONE worker process (a chunk): guard state that leaks from one
+    # header to the next of the same name (the shape of seed C14-b) is seen here too, not only by C06
+    order = sorted(range(len(exports)), key=lambda i: ("".join(exports[i]["name"]), exports[i]["m"]))
+    jobs = [dict(rec=exports[i], seed=sd * 17 + s, idx=i, keep=(i % 53 == 0 and s == 0)) for s in range(2) for i in order]
+    per_name = max(1, len(exports) // max(1, len({"".join(e["name"]) for e in exports})))
+    results = driverprops.pool_map(_work, jobs, chunksize=per_name)
     for w in results:
         rec = exports[w["idx"]]
         R.case(("".join(rec["name"]), rec["m"]))
